@@ -221,6 +221,23 @@ func runC17(c *core.Ctx, ck *Check) {
 			for _, bp := range []string{"", " ", "not-a-version", "*", "|", probe + "|", "\x00" + probe, probe + "\xff", "..", "vers:" + probe} {
 				check(base, bp, "bad-probe")
 			}
+			// a whole constraint slot (or the text next to a comparator) made only of characters that TrimSpace /
+			// unicode.IsSpace treat as blank but that are not the ASCII space: two edits at once (a separator and the
+			// character), which single-point corruption never produces
+			for _, ws := range []string{"\t", "\n", "\v", "\f", "\r", "\u0085", "\u00a0", "\u3000", "\u2003", "\u2028", "\ufeff", "\x00", "\x7f", " \t ", "\u00a0\u00a0", "\r\n"} {
+				body := strings.Join(parts, "|")
+				check("vers:"+j.scheme+"/"+body+"|"+ws, probe, "blank-slot")
+				check("vers:"+j.scheme+"/"+ws+"|"+body, probe, "blank-slot")
+				if k >= 2 {
+					check("vers:"+j.scheme+"/"+parts[0]+"|"+ws+"|"+strings.Join(parts[1:], "|"), probe, "blank-slot")
+				}
+				check("vers:"+j.scheme+"/"+body+ws, probe, "blank-affix")
+				check("vers:"+j.scheme+"/"+ws+body, probe, "blank-affix")
+				check("vers:"+ws+j.scheme+"/"+body, probe, "blank-affix")
+				check(ws+"vers:"+j.scheme+"/"+body, probe, "blank-affix")
+				check("vers:"+j.scheme+"/"+body, ws+probe, "blank-affix-probe")
+				check("vers:"+j.scheme+"/"+body, probe+ws, "blank-affix-probe")
+			}
 			check("vers:"+j.scheme, probe, "truncate")
 			check("vers:"+j.scheme+"/", probe, "truncate")
 			check("vers:"+j.scheme+"/|", probe, "truncate")
